@@ -153,6 +153,14 @@ func runProperty(id, tier, vdir string, known *core.KnownFindings, seed int,
 			m := models[tags]
 			eff, _ := func() (*core.Effects, error) { _, e, err := getModel(tags); return e, err }()
 			c := &core.Ctx{Property: id, Tier: tier, Config: "[" + tags + "]", M: m, Eff: eff, Models: models}
+			if miss := rules.GetAnchors(c).MissingFor(id); len(miss) > 0 {
+				// the data model differs from the pinned one in a way that cannot be resolved: no rule is run
+				for _, k := range miss {
+					c.Undecide(id, "anchor", "unresolved: "+k+" (data model changed; re-pin with tools/genkeys.py after reviewing rules/anchors.go)")
+				}
+				res.Undecided = append(res.Undecided, c.Undecided...)
+				continue
+			}
 			for _, r := range p.Rules {
 				if r.CrossConfig && ci > 0 {
 					continue
